@@ -513,14 +513,11 @@ REVIEWED_CASTS = {
 }
 
 
-def r5(ctx, facts):
-    r = ctx.rule("R5", "no narrowing `as` cast of a length/count when building a request", floor=0)
+def narrowing_len_casts(facts, roots):
+    """[(body, stmt, from, to, origin)] for every IntToInt cast that narrows a value derived from a length / count"""
     WIDTH = {"u8": 8, "i8": 8, "u16": 16, "i16": 16, "u32": 32, "i32": 32, "u64": 64, "i64": 64, "usize": 64, "isize": 64}
-    roots = [b for b in facts.find(r"^<?scylla_cql::frame::(request::|SerializedRequest|compress_append|types::write_)")]
-    roots += facts.find(r"^scylla_cql_core::frame::types::write_")
-    roots += facts.find(r"^scylla_cql_core::serialize::(row::SerializedValues|writers::)")
     seen = set()
-    n = 0
+    out = []
     for b in roots:
         if b.path in seen or "deserialize" in b.path or "::read_" in b.path:
             continue
@@ -533,18 +530,31 @@ def r5(ctx, facts):
                 fr, to = b.ty(st[2][3]), b.ty(st[2][4])
                 if fr not in WIDTH or to not in WIDTH or WIDTH[to] >= WIDTH[fr]:
                     continue
-                # is the operand derived from a len()/count?
                 df = df or df_of(b, facts)
                 derived = _derives_from_len(b, df, st[2][2])
-                if not derived:
-                    continue
-                n += 1
-                key = "%s:%s->%s" % (fn_short(b.path), fr, to)
-                if key in REVIEWED_CASTS:
-                    r.ok(key, "reviewed: " + REVIEWED_CASTS[key], b.stmt_span(st))
-                else:
-                    r.fail(key, "`%s as %s` narrows a value derived from %s: oversize input would be truncated silently instead of refused" % (fr, to, derived), b.stmt_span(st))
-    r.note("%d request-building bodies scanned, %d narrowing casts of length-derived values" % (len(seen), n))
+                if derived:
+                    out.append((b, st, fr, to, derived))
+    return out, len(seen)
+
+
+def r5(ctx, facts):
+    r = ctx.rule("R5", "no narrowing `as` cast of a length/count when building a request", floor=2)
+    roots = [b for b in facts.find(r"^<?scylla_cql::frame::(request::|SerializedRequest|compress_append|types::write_)")]
+    roots += facts.find(r"^scylla_cql_core::frame::types::write_")
+    roots += facts.find(r"^scylla_cql_core::serialize::(row::SerializedValues|writers::)")
+    found, nb = narrowing_len_casts(facts, roots)
+    for b, st, fr, to, derived in found:
+        key = "%s:%s->%s" % (fn_short(b.path), fr, to)
+        if key in REVIEWED_CASTS:
+            r.ok(key, "reviewed: " + REVIEWED_CASTS[key], b.stmt_span(st))
+        else:
+            r.fail(key, "`%s as %s` narrows a value derived from %s: oversize input would be truncated silently instead of refused" % (fr, to, derived), b.stmt_span(st))
+    r.instance("scanned-bodies", nb >= 40, "%d request-building bodies scanned for narrowing casts" % nb, nontrivial=False)
+    # non-vacuity: the same detector must fire on the fixture crate (and only on the truncating variant)
+    fx = ctx.facts("fixtures")
+    ffound, _ = narrowing_len_casts(fx, fx.find(r"^fixtures::request::"))
+    names = sorted(fn_short(b.path) for b, _, _, _, _ in ffound)
+    r.instance("fixture:detector-fires", names == ["request::write_len_truncating"], "on /verif/fixtures the detector reports %s; it must report exactly request::write_len_truncating" % names, nontrivial=False)
 
 
 def _derives_from_len(b, df, op, depth=0):
